@@ -399,7 +399,9 @@ func (txn *Txn[T]) Prefix(key index.Key) *Iterator[T] {
 		}
 		node = node.children[getBitAt(data, node.prefixLen())]
 	}
-	if node == nil {
+	if node == nil || matchLen < prefixLen {
+		// Ran out of nodes, or the trie diverges from [key] before all of
+		// its bits were matched: nothing stored is covered by [key].
 		return nil
 	}
 	return &Iterator[T]{start: node}
